@@ -11,7 +11,8 @@ EXPLANATION = ("Protocol shape decided on all paths: (R07.1) cancel_stream clear
                "every store of a waker is followed by a self-wake) a cancel that lands before the registration is caught by the self-wake and one that lands after it by the "
                "direct wake -- a complete argument for a parked or about-to-park stream; poll_next answers end-of-stream exactly when it found nothing buffered and the flag "
                "is false; (R07.4) end_stream cancels its target on EVERY path (no answer is produced without the cancel), then re-wakes the target on each iteration of a loop "
-               "that is left only when the stream's id is vacant again or under `timeout != ZERO`; (R07.5) the id becomes reusable on drop: Drop for MutinyStream -> "
+               "that is left only when the stream's id is vacant again or under `timeout != ZERO`, and the cancel is never repeated from inside that loop (a vacant id may already belong to "
+               "a stream nobody targeted); (R07.5) the id becomes reusable on drop: Drop for MutinyStream -> "
                "drop_resources -> report_stream_dropped -> vacant FIFO, for all 11 channels; nothing but the addressed flag is written by a cancel.")
 ASSUMPTIONS = ["executors honour the Waker contract; a spurious will_wake answer of a foreign waker is outside the statement"]
 
@@ -107,6 +108,7 @@ def check(ctx):
             for (a, b_, kind) in ex:
                 ctx.ob("R07.4", f"{k}|exit|{kind}", kind in ("success", "timeout"), body.loc(a),
                        {"success": "leaves the loop when the target's id is vacant again", "timeout": "leaves the loop only under `timeout != Duration::ZERO`", "other": "leaves the wait loop although the stream has not ended and no timeout was requested"}[kind])
+    S.check_cancel_not_repeated(ctx, "R07.4")
     # ------------------------------------------------------------------ R07.5 id reusable on drop
     S.check_release_all_channels(ctx, "R07.5")
     S.check_drain_before_release(util.PrefixedCtx(ctx, "R07.5"), "drop")
